@@ -51,6 +51,9 @@ type Plan struct {
 
 type park struct {
 	seq     uint64
+	gid     uint64
+	epoch   int // scheduler step at which the call was first seen (arrival epoch)
+	order   int // canonical rank inside its epoch
 	tid     int
 	class   string
 	label   string
@@ -256,16 +259,18 @@ func (s *Sim) Seam(inst *Instance, class, label string, faultable bool) error {
 		s.mu.Unlock()
 		return nil
 	}
+	// task ids are handed out by the scheduler at the next quiescent point, in a
+	// canonical order: which of several goroutines woken at the same virtual instant
+	// reaches its seam first is up to the Go runtime and must not matter
 	tid, ok := s.tids[gid]
 	if !ok {
-		tid = len(s.tids)
-		s.tids[gid] = tid
+		tid = -1
 	}
 	s.seq++
 	if faultable && s.FaultFilter != nil && !s.FaultFilter(class, label) {
 		faultable = false
 	}
-	p := &park{seq: s.seq, tid: tid, class: class, label: label, inst: inst, fault: faultable && !s.faultOff, release: make(chan error)}
+	p := &park{seq: s.seq, tid: tid, gid: gid, class: class, label: label, inst: inst, fault: faultable && !s.faultOff, release: make(chan error)}
 	if until, ok := s.paused[class]; ok && time.Now().Before(until) {
 		p.frozenT = until
 	}
@@ -391,8 +396,50 @@ func (s *Sim) Run(done func() bool, idleLimit time.Duration) {
 			cand = append(cand, p)
 		}
 		tasks := s.tasks
+		// every call that arrived since the last decision belongs to one arrival epoch;
+		// inside an epoch the order is canonical (class, label), not the order of arrival
+		var fresh []*park
+		for _, p := range s.parked {
+			if p.epoch == 0 {
+				p.epoch = s.step + 1
+				fresh = append(fresh, p)
+			}
+		}
+		sort.SliceStable(fresh, func(i, j int) bool {
+			if fresh[i].class != fresh[j].class {
+				return fresh[i].class < fresh[j].class
+			}
+			if fresh[i].label != fresh[j].label {
+				return fresh[i].label < fresh[j].label
+			}
+			// known tasks before new ones, by task id; new ones in arrival order (a true tie)
+			ti, tj := fresh[i].tid, fresh[j].tid
+			if (ti >= 0) != (tj >= 0) {
+				return ti >= 0
+			}
+			if ti != tj {
+				return ti < tj
+			}
+			return fresh[i].seq < fresh[j].seq
+		})
+		for k, p := range fresh {
+			p.order = k
+			if p.tid < 0 {
+				if t, ok := s.tids[p.gid]; ok {
+					p.tid = t
+				} else {
+					p.tid = len(s.tids)
+					s.tids[p.gid] = p.tid
+				}
+			}
+		}
 		s.mu.Unlock()
-		sort.Slice(cand, func(i, j int) bool { return cand[i].seq < cand[j].seq })
+		sort.Slice(cand, func(i, j int) bool {
+			if cand[i].epoch != cand[j].epoch {
+				return cand[i].epoch < cand[j].epoch
+			}
+			return cand[i].order < cand[j].order
+		})
 		// "settle" parkers (a client waiting for background work to finish) only run
 		// when nothing else can: drop them while other candidates exist
 		{
